@@ -279,6 +279,20 @@ func emitNodeAssemblerHelper_mapoid_mapAssemblerMethods(w io.Writer, adjCfg *Adj
 			case maState_initial:
 				panic("invalid state: AssembleValue cannot be called when no key is primed")
 			case maState_midKey:
+				if ma.cm == schema.Maybe_Value {
+					// The key came through the key type's own assembler, which knows nothing of this map:
+					//  this is the first chance to notice that the key is already present.
+					//  Drop the entry that was begun and go back to accepting keys; the error is reported by whatever is done with the returned assembler.
+					if _, exists := ma.w.m[ma.w.t[len(ma.w.t)-1].k]; exists {
+						k := ma.w.t[len(ma.w.t)-1].k
+						ma.w.t = ma.w.t[:len(ma.w.t)-1]
+						ma.ka.w = nil
+						ma.cm = schema.Maybe_Absent
+						ma.ka.reset()
+						ma.state = maState_initial
+						return _ErrorThunkAssembler{datamodel.ErrRepeatedMapKey{Key: &k}}
+					}
+				}
 				if !ma.keyFinishTidy() {
 					panic("invalid state: AssembleValue cannot be called when in the middle of assembling a key")
 				} // if tidy success: carry on
